@@ -40,6 +40,7 @@ type Socket struct {
 	Port   int
 	IP     string
 	lns    []*Listener
+	all    []*Listener // every descriptor ever opened
 	queue  []*End // server-side ends not yet accepted
 	Dead   bool
 	MinFds int // lowest descriptor count seen after first open
@@ -58,7 +59,8 @@ func (s *Socket) QueueLen() int { return len(s.queue) }
 // Listener is one descriptor of a Socket, wrapping the real kernel listener.
 type Listener struct {
 	n      *Net
-	ID     int
+	seq    int
+	ID     string // tag@socket#ordinal: independent of listener creation order
 	Tag    string // who owns it (set by the rig, e.g. instance number)
 	inner  FileListener
 	sock   *Socket
@@ -110,14 +112,32 @@ func (n *Net) Wrap(inner FileListener, tag string) *Listener {
 	}
 	if s == nil {
 		ta := inner.Addr().(*net.TCPAddr)
-		s = &Socket{ID: len(n.socks) + 1, Inode: ino, Port: ta.Port, IP: ta.IP.String(), MinFds: 1 << 30}
+		// socket ids must not depend on map iteration order in MakeServers:
+		// derive them from the bind address (rigs use distinct loopback IPs)
+		id := 100 + len(n.socks)
+		if ip4 := ta.IP.To4(); ip4 != nil && ip4[0] == 127 {
+			id = int(ip4[3])
+			for _, x := range n.socks {
+				if x.ID == id {
+					id = 100 + len(n.socks)
+				}
+			}
+		}
+		s = &Socket{ID: id, Inode: ino, Port: ta.Port, IP: ta.IP.String(), MinFds: 1 << 30}
 		n.socks = append(n.socks, s)
 	}
 	n.lnSeq++
-	l := &Listener{n: n, ID: n.lnSeq, Tag: tag, inner: inner, sock: s}
-	s.lns = append(s.lns, l)
 	s.Opened++
-	n.C.Logf("net: listener L%d(%s) opened on socket S%d fds=%d", l.ID, tag, s.ID, len(s.lns))
+	ord := 1
+	for _, x := range s.all {
+		if x.Tag == tag {
+			ord++
+		}
+	}
+	l := &Listener{n: n, seq: n.lnSeq, ID: fmt.Sprintf("%s@S%d#%d", tag, s.ID, ord), Tag: tag, inner: inner, sock: s}
+	s.lns = append(s.lns, l)
+	s.all = append(s.all, l)
+	n.C.Logf("net: listener L(%s) opened, fds=%d", l.ID, len(s.lns))
 	return l
 }
 
@@ -190,7 +210,7 @@ func (l *Listener) Close() error {
 		s.queue = nil
 	}
 	l.n.mu.Unlock()
-	l.n.C.Logf("net: listener L%d(%s) closed, socket S%d fds=%d", l.ID, l.Tag, s.ID, len(s.lns))
+	l.n.C.Logf("net: listener L(%s) closed, fds=%d", l.ID, len(s.lns))
 	for _, ch := range ws {
 		ch <- acceptResult{err: errClosedLn}
 	}
@@ -598,7 +618,7 @@ func (n *Net) events(add func(Event)) {
 				continue
 			}
 			l, s := l, s
-			add(Event{Key: fmt.Sprintf("net.accept/S%d/L%03d", s.ID, l.ID), Actor: fmt.Sprintf("accept:L%d", l.ID),
+			add(Event{Key: fmt.Sprintf("net.accept/S%d/%s", s.ID, l.ID), Actor: "accept:" + l.ID,
 				Fire: func() { n.doAccept(s, l) }})
 		}
 	}
@@ -627,8 +647,8 @@ func (n *Net) doAccept(s *Socket, l *Listener) {
 	ch := l.waiter[0]
 	l.waiter = l.waiter[1:]
 	e.conn.Accepted = l
+	n.C.Logf("net: conn%d accepted by L(%s)", e.conn.ID, l.ID)
 	n.mu.Unlock()
-	n.C.Logf("net: conn%d accepted by L%d(%s)", e.conn.ID, l.ID, l.Tag)
 	ch <- acceptResult{end: e}
 }
 
@@ -642,9 +662,9 @@ func (n *Net) doDeliver(e *End) {
 	if e.infBytes == 0 {
 		if e.finQueued && !e.finDeliv {
 			e.finDeliv = true
+			n.C.Logf("net: FIN delivered to %s", e.Name())
 			e.bcast()
 			n.mu.Unlock()
-			n.C.Logf("net: FIN delivered to %s", e.Name())
 			if e.OnData != nil {
 				e.OnData()
 			}
@@ -674,9 +694,9 @@ func (n *Net) doDeliver(e *End) {
 	if e.infBytes == 0 && e.finQueued && !e.finDeliv && e.cuts.Draw(2) == 1 {
 		e.finDeliv = true
 	}
+	n.C.Logf("net: %d bytes delivered to %s", moved, e.Name())
 	e.bcast()
 	n.mu.Unlock()
-	n.C.Logf("net: %d bytes delivered to %s", moved, e.Name())
 	if e.OnData != nil {
 		e.OnData()
 	}
